@@ -297,7 +297,7 @@ def run(pid, tier, seed, replay=None):
             scripts = [vlib.read(replay)]
             tfs = corerun.run_scripts(exe, scripts, sc, tag="replay")
         else:
-            budget = 256 if tier == "quick" else 6000
+            budget = 256 if tier == "quick" else 1500
             if pid == "C08":
                 combos = [(n, b, m, []) for n, b in ev_scenarios().items() for m in ("epoll", "poll")]
                 if tier == "thorough":
@@ -317,7 +317,7 @@ def run(pid, tier, seed, replay=None):
                 gs = eventreg_scripts(sc, tier, seed, "C08")
                 scripts += gs
                 tfs += corerun.run_scripts(exe, gs, sc, tag="genreg")
-            nrand = 400 if tier == "quick" else 8000
+            nrand = 400 if tier == "quick" else 3000
             rs = []
             for i in range(nrand):
                 method = rnd.choice(["epoll", "epoll-timerfd", "poll", "ppoll"])
